@@ -36,12 +36,26 @@ polling interval after `c` — with `CancelledError`, unless a matching response
 first (`returned`/`raised`) or the deadline came first (`timedOut`, which by
 `c14_timeout_at_deadline` means `D ≤ c + P`). -/
 theorem c14_cancel_latency (R : Int → Bool) (cfg : Cfg α) (ev : List (Nat × In α)) (c : Nat)
-    (hc : cfg.cancelAt = some c) : (run R cfg ev).time ≤ c + cfg.P := by
+    (hc : cfg.cancelAt = some c) (hw : cfg.writer ≠ .blocked) : (run R cfg ev).time ≤ c + cfg.P := by
   unfold run
   split
   · simp
-  · have := loop_cancel_latency R cfg c hc 0 ev [.request] [] 0
+  · have := loop_cancel_latency R cfg c hc hw 0 ev [.request] [] 0
     simpa using this
+
+/-- The guard of `c14_cancel_latency` is exact.  The cancelled notification is written INSIDE the
+deadline scope; when the write stream cannot take it (the peer has stopped reading and the buffer
+is full) the write is cut off by the deadline: the call then still ends no later than its timeout
+(`c14_deadline`), never with `CancelledError`, and writes nothing but its request. -/
+theorem c14_blocked_writer (R : Int → Bool) (cfg : Cfg α) (ev : List (Nat × In α))
+    (hpre : cfg.preCancelled = false) (hw : cfg.writer = .blocked) :
+    (run R cfg ev).outcome ≠ .cancelled ∧ (run R cfg ev).writes = [Write.request]
+      ∧ (run R cfg ev).time ≤ cfg.D := by
+  have hrun : run R cfg ev = loop R cfg 0 ev [.request] [] 0 := by simp [run, hpre]
+  have hnc := loop_blocked_not_cancelled R cfg 0 ev [.request] [] 0 hw
+  refine ⟨by rw [hrun]; exact hnc, ?_, c14_deadline R cfg ev⟩
+  rw [hrun, loop_writes, hw]
+  cases h : (loop R cfg 0 ev [Write.request] [] 0).outcome <;> simp_all
 
 /-- `CancelledError` is raised only if the token fired: already before the call, or at a tick
 not later than the completion tick (and before the deadline). -/
@@ -56,15 +70,20 @@ theorem c14_cancelled_only_if_fired (R : Int → Bool) (cfg : Cfg α) (ev : List
     obtain ⟨c, h1, h2, _⟩ := loop_cancelled_sound R cfg 0 ev _ _ _ h
     exact ⟨c, h1, h2⟩
 
-/-- Exactly one cancelled notification is written when the call ends cancelled, none otherwise. -/
+/-- Exactly one cancelled notification is written when the call ends cancelled, none otherwise
+(write stream not closed under the call: a closed stream takes no notification — the failed write
+is logged, the call still ends cancelled — and never more than one is written in any case). -/
 theorem c14_one_cancel_notification (R : Int → Bool) (cfg : Cfg α) (ev : List (Nat × In α)) :
-    ((run R cfg ev).writes.count Write.cancelNotif = 1 ↔ (run R cfg ev).outcome = .cancelled)
-    ∧ (run R cfg ev).writes.count Write.cancelNotif ≤ 1 := by
+    (cfg.writer ≠ .closed →
+      ((run R cfg ev).writes.count Write.cancelNotif = 1 ↔ (run R cfg ev).outcome = .cancelled))
+    ∧ (run R cfg ev).writes.count Write.cancelNotif ≤ 1
+    ∧ ((run R cfg ev).writes.count Write.cancelNotif = 1 → (run R cfg ev).outcome = .cancelled) := by
   unfold run
   split
   · simp
   · rw [loop_writes]
-    cases (loop R cfg 0 ev [Write.request] [] 0).outcome <;> simp
+    have hb := loop_blocked_not_cancelled R cfg 0 ev [.request] [] 0
+    cases h : (loop R cfg 0 ev [Write.request] [] 0).outcome <;> cases hw : cfg.writer <;> simp_all
 
 /-- A request cancelled before sending is never sent. -/
 theorem c14_cancel_before_send_writes_no_request (R : Int → Bool) (cfg : Cfg α)
@@ -87,11 +106,11 @@ theorem c14_progress_exact (R : Int → Bool) (cfg : Cfg α) (ev : List (Nat × 
 /-- ... and the consumed prefix is everything that arrived strictly before completion: an
 entry of a time-ordered history that was not consumed arrives no earlier than the completion tick. -/
 theorem c14_consumed_is_before_completion (R : Int → Bool) (cfg : Cfg α) (ev : List (Nat × In α))
-    (hs : Sorted ev) (hp : cfg.preCancelled = false) :
+    (hs : Sorted ev) (hp : cfg.preCancelled = false) (hw : cfg.writer ≠ .blocked) :
     ∀ x ∈ ev.drop (run R cfg ev).consumed, (run R cfg ev).time ≤ x.1 := by
   have hrun : run R cfg ev = loop R cfg 0 ev [.request] [] 0 := by simp [run, hp]
   rw [hrun]
-  have := loop_unconsumed_late R cfg 0 ev [.request] [] 0 hs (by intro x _; exact Nat.zero_le _)
+  have := loop_unconsumed_late R cfg 0 ev [.request] [] 0 hs (by intro x _; exact Nat.zero_le _) hw
   simpa using this
 
 /-- which notifications count: the token must be the request's own -/
@@ -125,7 +144,7 @@ request started at or after the instant the token fired is never sent and ends c
 a request is cancelled only if the token had fired by its completion; none is cancelled when the
 token never fires; each ends by its own deadline and within one poll period of the token firing. -/
 theorem c14_shared_token (R : Int → Bool) (fire : Option Nat) (s0 : Nat)
-    (reqs : List (Cfg α × Nat × List (Nat × In α))) :
+    (reqs : List (Cfg α × Nat × List (Nat × In α))) (hopen : ∀ r ∈ reqs, r.1.writer = .open) :
     ∀ x ∈ runSeq R fire s0 reqs,
       (x.2.writes.count Write.cancelNotif = 1 ↔ x.2.outcome = .cancelled)
       ∧ x.2.writes.count Write.cancelNotif ≤ 1
@@ -140,7 +159,10 @@ theorem c14_shared_token (R : Int → Bool) (fire : Option Nat) (s0 : Nat)
     simp only [runSeq, List.mem_cons] at hx
     rcases hx with rfl | hx
     · dsimp only
-      refine ⟨(c14_one_cancel_notification R _ ev).1, (c14_one_cancel_notification R _ ev).2, ?_, ?_, ?_⟩
+      have hwo : (withToken cfg fire s0).writer = .open := by
+        have := hopen (cfg, gap, ev) List.mem_cons_self
+        unfold withToken; split <;> (try split) <;> simpa using this
+      refine ⟨(c14_one_cancel_notification R _ ev).1 (by simp [hwo]), (c14_one_cancel_notification R _ ev).2.1, ?_, ?_, ?_⟩
       · intro f hf hle
         subst hf
         have hp : (withToken cfg (some f) s0).preCancelled = true := by simp [withToken, hle]
@@ -171,10 +193,10 @@ theorem c14_shared_token (R : Int → Bool) (fire : Option Nat) (s0 : Nat)
           have : (run R (withToken cfg (some f) s0) ev).time = 0 := by simp [run, hp]
           omega
         · have hc : (withToken cfg (some f) s0).cancelAt = some (f - s0) := by simp [withToken, hle]
-          have := c14_cancel_latency R _ ev _ hc
+          have := c14_cancel_latency R _ ev _ hc (by simp [hwo])
           have hP : (withToken cfg (some f) s0).P = cfg.P := by simp [withToken, hle]
           omega
-    · obtain ⟨h1, h2, h3, h4, h5⟩ := ih _ x hx
+    · obtain ⟨h1, h2, h3, h4, h5⟩ := ih _ (fun r hr => hopen r (List.mem_cons_of_mem _ hr)) x hx
       refine ⟨h1, h2, h3, h4, ?_⟩
       intro f hf
       obtain ⟨r, hr, hle⟩ := h5 f hf
@@ -200,7 +222,7 @@ def exObs : Obs Nat := run (fun _ => true) exCfg
 
 example : exObs.outcome = .cancelled ∧ exObs.time = 1100 ∧ exObs.callbacks = [(1, none, none)]
     ∧ exObs.writes = [.request, .cancelNotif] := by
-  simp [exObs, exCfg, run, loop, cancelVisible, arrivesInTime, classify, Verif.Gen.Timing.pollMs]
+  simp [exObs, exCfg, run, loop, onCancel, cancelVisible, arrivesInTime, classify, Verif.Gen.Timing.pollMs]
 
 /-- three requests on one token firing at tick 700: the first is cancelled while waiting (one
 notification), the second and third are never sent (one notification each) -/
@@ -209,6 +231,14 @@ example : (runSeq (fun _ => true) (some 700) 0
        ({ exCfg with cancelAt := none }, 0, [])]).map
         (fun x => (x.1, x.2.time, x.2.writes))
     = [(0, 1000, [.request, .cancelNotif]), (1005, 0, [.cancelNotif]), (1005, 0, [.cancelNotif])] := by
-  simp [runSeq, withToken, exCfg, run, loop, cancelVisible, Verif.Gen.Timing.pollMs]
+  simp [runSeq, withToken, exCfg, run, loop, onCancel, cancelVisible, Verif.Gen.Timing.pollMs]
+
+/-- the same call against a peer that has stopped reading: the cancelled notification cannot be
+written, the deadline ends the call (the hypotheses of `c14_blocked_writer` are satisfiable) -/
+example : (run (fun _ => true) { exCfg with writer := .blocked } []).outcome = .timedOut
+    ∧ (run (fun _ => true) { exCfg with writer := .blocked } []).time = 4096
+    ∧ (run (fun _ => true) { exCfg with writer := .closed } []).outcome = .cancelled
+    ∧ (run (fun _ => true) { exCfg with writer := .closed } []).writes = [.request] := by
+  simp [exCfg, run, loop, onCancel, cancelVisible, Verif.Gen.Timing.pollMs]
 
 end Verif.Props.C14
